@@ -665,7 +665,8 @@ class HDF5DataFrame(DataFrame):
     def to_pandas(self, row_filter: List[bool] = None, col_filter: Union[str, List[str]] = None):
         """
         Convert an ExeTera dataframe to Pandas DataFrame.
-        :param row_filter: A boolean array indicates which rows to export.
+        :param row_filter: A boolean array / field / list indicates which rows to export, with the meaning it has in
+            to_csv: row i is exported if the filter has an entry for it and that entry is True.
         :param col_filter: String or list of strings indicates which columns to export.
         :returns: A pandas dataframe.
 
@@ -680,11 +681,23 @@ class HDF5DataFrame(DataFrame):
                 if len(self._columns[field].data) != bench_length:
                     raise ValueError("All fields must be of the same length.")
 
+        filter_array = None
+        if row_filter is not None:  # the filters to_csv accepts (boolean Field / ndarray), and a list of bool
+            if isinstance(row_filter, list):
+                row_filter = np.asarray(row_filter)
+            filter_array, _ = val.validate_boolean_row_filter('row_filter', row_filter)
+
         col_to_convert = col_to_convert if isinstance(col_to_convert, list) else [col_to_convert]  # case of one column
         temp = {}
         for field in col_to_convert:
             field_arr = np.array(self._columns[field].data[:])
-            temp[field] = field_arr if row_filter is None else field_arr[row_filter]
+            if filter_array is not None:
+                # the rows to_csv writes: row i iff i < len(filter_array) and filter_array[i] == True
+                selected = np.zeros(len(field_arr), dtype=bool)
+                n_filtered = min(len(field_arr), len(filter_array))
+                selected[:n_filtered] = filter_array[:n_filtered] == True
+                field_arr = field_arr[selected]
+            temp[field] = field_arr
         return pd.DataFrame(temp)
 
     def drop_duplicates(self, by: Union[str, List[str]],
